@@ -118,6 +118,6 @@ pub fn parse_args(default_model: &str) -> Args {
 		}
 	}
 	// panics inside guarded cases are outcomes; keep the default hook quiet
-	std::panic::set_hook(Box::new(|_| {}));
+	if std::env::var("VERIF_PANIC").is_err() { std::panic::set_hook(Box::new(|_| {})); }
 	args
 }
